@@ -75,6 +75,7 @@ struct Obs {           // everything observed in one run
     int ret; bool parsedOk; long depthAtStart, depthAtEnd, maxDepth; bool ctxOkAtEnd;
     int64_t finalProbe; bool slotLeftovers;
     Str console; Vec<SimFile> files; uint64_t writesAfterClose, badHandle;
+    Str terminal;                  // real separate-process mode: the bytes in the order a terminal would have received them - what the parent flushed, what each child flushed (a child starts with a copy of whatever the parent had printed and not yet flushed when it forked), and at the end what was still unflushed
     Str childConsole;              // what forked children flushed to the console before they ended (real separate-process mode)
     Vec<int64_t> procLog;          // C11: (test, what, value) triples: 1 fork, 2 waitpid call, 3 kill(sig), 4 script exhausted (hang), 5 fork failed
     Str finalReport; int pluginCount, pluginCountExpected; int removedStillFound;
